@@ -247,6 +247,113 @@ def check_content_injective(ctx: Check, tree: Tree, hook_fn) -> None:
             raise AnalysisError(f"{kf.qual}: no return")
 
 
+def check_arg_order(ctx: Check, tree: Tree) -> None:
+    """R-ARGORDER: `.args` of an instance are in field-declaration order however the call spells its
+    arguments (evaluate()/printers unpack `self.args` positionally, subs/xreplace/pickle rebuild
+    positionally).  new_method lays out the SymPy args in the iteration order of the mapping that
+    _extract_field_values returns, so every insertion into that mapping must happen in field order:
+    by zip(fields, args) or inside a loop over (a slice of) the field tuple - never in the order of
+    the caller's keyword arguments."""
+    from ..dataflow import RD
+
+    new = tree.funcs.get(f"{IMPLEMENT_NEW}.new_method")
+    ext = tree.funcs.get("ampform.sympy._decorator::_extract_field_values")
+    if new is None or ext is None:
+        raise AnalysisError("vanished anchor: new_method / _extract_field_values")
+    nrd = RD(new.node) if new.outer is None else None
+    from ..prov import _rd_for
+
+    nrd = _rd_for(new, {})
+    # does new_method depend on the mapping's order?
+    order_sensitive = False
+    for node in walk_function(new.node):
+        if isinstance(node, (ast.GeneratorExp, ast.ListComp)) and any(
+            isinstance(c, ast.Call) and isinstance(c.func, ast.Attribute) and c.func.attr == "items" for c in ast.walk(node.generators[0].iter)
+        ):
+            src = node.generators[0].iter
+            if any(d.value is not None and "_extract_field_values" in unparse(d.value) for d in nrd.closure(nrd.uses(src))):
+                order_sensitive = True
+    if not order_sensitive:
+        ctx.ok("R-ARGORDER", tree.loc(new.node), "new_method lays out the SymPy args by iterating the field tuple: insertion order of the extracted mapping is irrelevant")
+        return
+    rd = RD(ext.node)
+    params = ext.params
+    kw_defs = {d for d in rd.defs if d.kind == "param" and d.name in {ext.node.args.kwarg.arg if ext.node.args.kwarg else "kwargs"}}
+    ret_names = set()
+    for ret, _ in rd.returns:
+        if ret.value is not None and isinstance(ret.value, ast.Tuple) and ret.value.elts:
+            ret_names |= {n.id for n in ast.walk(ret.value.elts[0]) if isinstance(n, ast.Name)}
+    n_ins = 0
+    problems = []
+    for node in walk_function(ext.node):
+        if isinstance(node, ast.Assign) and isinstance(node.targets[0], ast.Subscript) and isinstance(node.targets[0].value, ast.Name) and node.targets[0].value.id in ret_names:
+            n_ins += 1
+            loops = [a for a in _ancestors(node) if isinstance(a, ast.For)]
+            if not loops:
+                problems.append((node, "inserted outside any loop over the fields"))
+                continue
+            it = loops[0].iter
+            deps = rd.closure(rd.uses(it))
+            from_fields = any(d.value is not None and "_get_fields" in unparse(d.value) for d in deps)
+            from_kwargs = bool(deps & kw_defs) or any(isinstance(n, ast.Name) and n.id in {d.name for d in kw_defs} for n in ast.walk(it))
+            if from_kwargs:
+                problems.append((node, f"inserted in a loop over `{unparse(it)}` - the order of the caller's keyword arguments"))
+            elif not from_fields:
+                problems.append((node, f"inserted in a loop over `{unparse(it)}`, which does not derive from the field tuple"))
+    if n_ins == 0:
+        raise AnalysisError(f"{ext.qual}: no insertion into the returned mapping found")
+    for node, why in problems:
+        ctx.violation("R-ARGORDER", f"{ext.qual}::{why.split(' - ')[0][:60]}", tree.loc(node), f"{ext.qual}: `{unparse(node)[:60]}` is {why}",
+                      "Cls(b=.., a=..) then has .args == (b, a): evaluate() unpacks `a, b = self.args` and computes with the values interchanged, while the named attributes still look right")
+    if not problems:
+        ctx.ok("R-ARGORDER", tree.loc(ext.node), f"{ext.qual}: all {n_ins} insertions into the field mapping happen in field-declaration order (zip with the positional arguments, loops over slices of the field tuple)")
+
+
+def check_internal_rebuild(ctx: Check, tree: Tree) -> None:
+    """R-REBUILD (decorator): a method that @unevaluated installs on every class reconstructs an
+    instance only from the COMPLETE argument list (_get_arguments(self): all fields), never from
+    `self.args` (SymPy arguments only) - otherwise the copy carries the defaults of the non-SymPy
+    attributes (phsp_factor=PhaseSpaceFactor, name=None) and e.g. doit() of a width with a nested
+    argument unfolds with another phase-space factor than the one it was built with."""
+    from ..dataflow import RD
+
+    mod = "ampform.sympy._decorator"
+    n = 0
+    bad = 0
+    for q, fn in sorted(tree.funcs.items()):
+        if not q.startswith(mod + "::") or not fn.params or fn.params[0] != "self":
+            continue
+        from ..prov import _rd_for
+
+        rd = _rd_for(fn, {})
+        for node in walk_function(fn.node, nested=False):
+            if not (isinstance(node, ast.Call) and isinstance(node.func, ast.Attribute) and node.func.attr == "func"
+                    and isinstance(node.func.value, ast.Name) and node.func.value.id == "self"):
+                continue
+            n += 1
+            srcs = []
+            for a in node.args:
+                inner = a.value if isinstance(a, ast.Starred) else a
+                deps = rd.closure(rd.uses(inner))
+                texts = [unparse(inner)] + [unparse(d.value) for d in deps if isinstance(d.value, ast.AST)]
+                srcs.append(" ".join(texts))
+            txt = " ".join(srcs)
+            from_args = "self.args" in txt or "self._args" in txt
+            complete = "_get_arguments(self)" in txt
+            # self.func(coefficient, nonnumber, evaluate=False) - the 2-arg hack on already rebuilt values
+            if not from_args and not complete and not any(isinstance(a, ast.Starred) for a in node.args):
+                ctx.info("R-REBUILD", tree.loc(node), f"{q}: `{unparse(node)[:50]}` takes explicit values")
+                continue
+            ok = complete and not from_args
+            if not ok:
+                bad += 1
+            ctx.verdict(ok, "R-REBUILD", f"{q}::self.func from {'self.args' if from_args else 'unknown'}", tree.loc(node),
+                        f"{q}: `{unparse(node)[:50]}` rebuilds the instance from {'the complete field values (_get_arguments)' if ok else 'self.args (SymPy arguments only)'}",
+                        None if ok else "non-SymPy attributes of the rebuilt instance fall back to their defaults")
+    if n < 2:
+        raise AnalysisError(f"only {n} self.func(...) reconstructions found in the decorator hooks (4 confirmed)")
+
+
 def count_nested_constructions(tree: Tree) -> list[str]:
     classes = set(expression_classes(tree)) | set(handwritten_expr_classes(tree))
     out = []
@@ -386,6 +493,8 @@ def run(ctx: Check, tree: Tree) -> None:
                 ctx.ok("R-HOOKS", tree.loc(value), f"cls.{attr} installed unconditionally")
 
     ctx.section(check_descent, ctx, tree)
+    ctx.section(check_arg_order, ctx, tree)
+    ctx.section(check_internal_rebuild, ctx, tree)
     ctx.section(check_precedence, ctx, tree, prefixes=("ampform",))
 
     # ---- R-ARITY
